@@ -111,6 +111,8 @@ class _ConditionalAssignment(object):
             # even if the above finalization throws an error we need to
             # reset the state to prevent errors from bleeding over
             _reset_conditional_state()  # sets _depth back to 0
+            # defaults only apply to the block they were given for
+            self.defaults = {}
 
 
 class _Otherwise(object):
